@@ -211,7 +211,8 @@ class Tool:
         for p in [fout] + [self.path(x) for x in extra_files]:
             if os.path.exists(p):
                 os.remove(p)
-        r = self.ctx.run([self.exe, "cli", "-i", fin, "-o", fout] + list(argv), "", timeout=60, env=self.env)
+        self.last_argv = ["-i", fin, "-o", fout] + list(argv)
+        r = self.ctx.run([self.exe, "cli"] + self.last_argv, "", timeout=60, env=self.env)
         res = {"rc": r.rc, "err": r.err, "out": r.out, "timed_out": r.timed_out, "output": None, "files": {}}
         if os.path.exists(fout):
             res["output"] = open(fout, "rb").read().decode("latin-1")
@@ -366,6 +367,70 @@ def bounded(args):
     if meth and meth[-1] in ITERATIVE and not any(n == "max-iters" for n, _ in args):
         return list(args) + [("max-iters", "2")]
     return list(args)
+
+
+QUIRK_ARGVS = [
+    ["-td", "2"], ["--td", "2"], ["--k", "5"], ["-k5"], ["-k", "5"], ["--num-neighbors=5"], ["-x"], ["-"], [""],
+    ["stray"], ["--", "--bogus"], ["-k"], ["--method"], ["-mpca"], ["-m=pca"], ["--td=0"], ["--td", "-1"],
+    ["--gw", "-0.5"], ["--gw=-0.5"], ["--spe-local=true"], ["--spe-local=false"], ["--spe-local=maybe"],
+    ["--precompute=1", "-m", "pca"], ["--debug=0"], ["-hk", "5"], ["-m", "pca", "stray", "-k", "4"],
+    ["--transpose-output", "5"], ["-d;", "-m", "passthru"], ["--eigenshift=", "-m", "pca"], ["--m", "pca"],
+    ["-m", "pca", "--"], ["--nm=brute", "--em", "dense"], ["-kk"], ["--k=5"], ["---k", "5"], ["--spe_local"],
+]
+
+
+def gen_raw_argv(rng, tables):
+    """argv vectors in all the spellings cxxopts understands, and some it does not"""
+    maps = dict(tables["maps"])
+    methods = [k for k, _ in maps.get("DIMENSION_REDUCTION_METHODS", [])] or ["pca"]
+    out = []
+    for _ in range(rng.choice([1, 1, 2, 2, 3, 4])):
+        c = rng.random()
+        if c < 0.2:
+            v = rng.choice(INT_TOKENS["k"])
+            out += rng.choice([["-k", v], ["-k" + v], ["--num-neighbors", v], ["--num-neighbors=" + v], ["--k", v]])
+        elif c < 0.4:
+            short, long_ = rng.choice([x for x in DBL_OPTS.items()])
+            n = rng.choice([short, long_ or short])
+            v = rng.choice(DBL_TOKENS)
+            out += rng.choice([["--" + n, v], ["--" + n + "=" + v], ["-" + n, v]])
+        elif c < 0.6:
+            v = rng.choice(methods) if rng.random() < 0.85 else rng.choice(["", "xx", "=pca"])
+            out += rng.choice([["-m", v], ["-m" + v], ["--method", v], ["--method=" + v], ["-m=" + v]])
+        elif c < 0.8:
+            f = rng.choice(FLAGS + ["debug"])
+            out += rng.choice([["--" + f], ["--" + f], ["--" + f + "=" + rng.choice(["true", "false", "1", "0", "T", "yes", ""])],
+                               ["-" + f]])
+        elif c < 0.9:
+            short, long_ = rng.choice(list(INT_OPTS.items()))
+            v = rng.choice(INT_TOKENS[short])
+            n = rng.choice([short, long_ or short])
+            out += rng.choice([["--" + n, v], ["--" + n + "=" + v]])
+        else:
+            out += rng.choice([["stray"], ["--"], ["-"], ["-x"], ["--bogus=1"], ["-k"], ["--td"], ["-dk"], [""]])
+    return out
+
+
+def readings_for(argv):
+    """the numeric readings of every string the scanner may take for an option value"""
+    cands = set()
+    for t in argv:
+        cands.add(t)
+        if "=" in t:
+            cands.add(t.split("=", 1)[1])
+        if t.startswith("-") and not t.startswith("--"):
+            for i in range(2, len(t)):
+                cands.add(t[i:])
+    toks = []
+    for c in sorted(cands):
+        try:
+            h = hexs(c)
+        except UnicodeEncodeError:
+            continue
+        zi, qd = int_reading(c), dbl_reading(c)
+        toks.append("%s:%s:%s" % (h or "-", "-" if zi is None else zi,
+                                  "-" if qd is None else "%d/%d" % (qd.numerator, qd.denominator)))
+    return "{ " + " ".join(toks) + " }"
 
 
 VALID_TOKENS = ["0", "1", "2", "3", "-1", "0.5", "-2.25", "10", "1e2", "007", "+4", ".5", "5.", "100000", "1e-3",
@@ -551,6 +616,65 @@ class Checker:
                     ctx.mismatch(case, "model of the generated tables vs tool echo: " + "; ".join(bad))
         if len(self.samples) < 3 and batch:
             self.samples.append({"kind": "wiring", "argv": argv_of(batch[-1])})
+
+    # ---------------- raw argv: cxxopts' scanner + wiring
+    def rawargv(self, batch):
+        ctx = self.ctx
+        fin, fout = self.tool.path("in.txt"), self.tool.path("out.txt")
+        runs = []
+        for raw in batch:
+            iterative = any(any(m == t or t.endswith(m) for m in ITERATIVE) for t in raw)
+            pre = ["--debug"] + (["--max-iters", "2"] if iterative else [])
+            full = ["-i", fin, "-o", fout] + pre + list(raw)
+            case = {"kind": "argv", "argv": list(raw)}
+            res = self.tool.cli(pre + list(raw), SMALL_DATA)
+            self.evals += 1
+            runs.append((case, full, res))
+        enc = [readings_for(full) + " " + " ".join(hexs(t) or "-" for t in full) for _, full, _ in runs]
+        outs = model_batch(ctx, self.mexe, ["A " + e for e in enc] + ["T " + e for e in enc])
+        am, at = outs[:len(runs)], outs[len(runs):]
+        reqs, idx = [], []
+        for i, (case, full, res) in enumerate(runs):
+            spec = parse_outcome(at[i])
+            self.count("argv:" + spec[0])
+            if crashed(res):
+                ctx.violation(case, "the tool crashed or hung (rc=%s timed_out=%s): %s" % (
+                    res["rc"], res["timed_out"], res["err"][-300:]))
+                continue
+            echo = echo_of(res, self.labels, self.enums) if spec[0] == "run" else {}
+            if spec[0] == "run" and not echo:
+                ctx.violation(case, "documented: this argv is valid and reaches the library; the tool returned %d "
+                              "without calling it: %s" % (res["rc"], (res["err"] + res["out"])[-200:]))
+                continue
+            if spec[0] == "run":
+                self.nontrivial.add(case_id(case))
+            reqs.append("B %d %s %s" % (res["rc"], encode_echo(echo, spec[1] if spec[0] == "run" else {}, self.enums),
+                                        enc[i]))
+            idx.append(i)
+        for v, i in zip(model_batch(ctx, self.mexe, reqs), idx):
+            case, full, res = runs[i]
+            spec, model = parse_outcome(at[i]), parse_outcome(am[i])
+            echo = echo_of(res, self.labels, self.enums)
+            if v.strip() != "OK":
+                if spec[0] == "exit":
+                    why = "documented: exit status non-zero for this argv; the tool returned %d" % res["rc"]
+                else:
+                    why = "the library did not receive the documented parameter values: " + \
+                          "; ".join(self.diff_echo(echo, spec[1]))
+                ctx.violation(dict(case, echo=echo), why)
+            if model[0] == "stuck":
+                ctx.mismatch(case, "the model cannot interpret the generated tables (Stuck)")
+            elif model[0] == "exit" and (model[1] != 0) != (res["rc"] != 0):
+                ctx.mismatch(case, "argv model: exit %d, tool: exit %d" % (model[1], res["rc"]))
+            elif model[0] == "run" and echo:
+                bad = self.diff_echo(echo, model[1])
+                if bad:
+                    ctx.mismatch(case, "argv model of the generated tables vs tool echo: " + "; ".join(bad))
+            elif model[0] == "run" and not echo:
+                ctx.mismatch(case, "argv model: the library is called; the tool printed no parameter echo (rc=%d)"
+                             % res["rc"])
+        if batch and len(self.samples) < 8:
+            self.samples.append({"kind": "argv", "argv": batch[-1]})
 
     def diff_echo(self, echo, params):
         bad = []
@@ -806,13 +930,18 @@ def prepare(ctx):
 
     th = threading.Thread(target=build)
     th.start()
+    t0 = ctx.elapsed()
     coq = ctx.coq()
+    t1 = ctx.elapsed()
     mexe = None
     try:
         mexe = ctx.extract()
     except vlib.BuildError as ex:
         box.setdefault("merr", ex)
+    t2 = ctx.elapsed()
     th.join()
+    ctx.note("prepare: translator %.1fs, coq (make + Print Assumptions, incl. waiting for the build lock) %.1fs, "
+             "extraction + ocamlopt %.1fs, waiting for g++ %.1fs" % (t0, t1 - t0, t2 - t1, ctx.elapsed() - t2))
     if "err" in box:
         raise box["err"] if isinstance(box["err"], vlib.BuildError) else vlib.BuildError(str(box["err"]))
     if mexe is None:
@@ -820,7 +949,28 @@ def prepare(ctx):
     return tr, tables, coq, mexe, box["exe"]
 
 
+def restore_generated(ctx):
+    """coq/gen/Cli.v is a build product of the tree under test; after a run against a scratch worktree put
+    the translation of the default repository back so that the committed development keeps building"""
+    default = "/repo"
+    if os.path.realpath(ctx.repo) == os.path.realpath(default) or not os.path.exists(
+            os.path.join(default, "src/cli/main.cpp")):
+        return
+    try:
+        tr = load_translator(ctx)
+        tr.write_if_changed(os.path.join(ctx.verif, "coq", "gen", "Cli.v"), tr.emit(tr.translate(default)))
+    except Exception:
+        pass
+
+
 def run(ctx):
+    try:
+        run_inner(ctx)
+    finally:
+        restore_generated(ctx)
+
+
+def run_inner(ctx):
     rng = ctx.rng
     tr, tables, coq, mexe, exe = prepare(ctx)
     if tables is None:
@@ -844,6 +994,7 @@ def run(ctx):
             ctx.mismatch({"kind": "help"}, "translator vs registered option table: " + b)
         ck.wiring(gen_single_option_cases(tables))
         ck.wiring([gen_random_args(rng, tables) for _ in range(600 if big else 120)], rng)
+        ck.rawargv(QUIRK_ARGVS + [gen_raw_argv(rng, tables) for _ in range(500 if big else 100)])
         times["wiring_done_s"] = round(ctx.elapsed(), 1)
         ck.files([gen_file_case(rng) for _ in range(800 if big else 160)])
         ck.files(gen_small_files(None if big else 60))
@@ -880,9 +1031,18 @@ def replay_case(ck, c):
         ck.files([c])
     elif kind == "lib":
         ck.library([c])
+    elif kind == "argv":
+        ck.rawargv([c["argv"]])
 
 
 def replay(ctx, case):
+    try:
+        return replay_inner(ctx, case)
+    finally:
+        restore_generated(ctx)
+
+
+def replay_inner(ctx, case):
     tr, tables, coq, mexe, exe = prepare(ctx)
     tool = Tool(ctx, exe)
     ck = Checker(ctx, tool, mexe, keyword_labels(ctx.repo), enum_names(ctx.repo))
